@@ -36,7 +36,15 @@ static inline void H5Group_createLink(H5Group *g, H5Group target, const char *na
 { __CPROVER_assert(g->grp == OWN_GRP, "the multi-tag's own group"); gh_rl_links++; gh_rl_link_target = target.grp; gh_rl_name_ok = RL_IS(name); gh_rl_link_after_removes = gh_rl_removes; }
 static inline void MultiTagHDF5_forceUpdatedAt(MultiTagHDF5 *self)
 { gh_rl_updates++; }
-#define RL_PRE (__CPROVER_is_fresh(self, sizeof(MultiTagHDF5)) && __CPROVER_is_fresh(name_or_id, sizeof(nstring)) && (gh_rl_found == 0 || gh_rl_found == 1) && (gh_rl_has_old == 0 || gh_rl_has_old == 1) && \
+/* FeatureHDF5::data(name_or_id): the same rule for the feature's data link */
+typedef struct { int _f; } FeatureHDF5;
+static inline DataArrayP FeatureHDF5_getArrayEntity(const FeatureHDF5 *self, const nstring *key)
+{ DataArrayP p; p.null = gh_rl_found ? 0 : 1; p.grp = gh_rl_target_grp; p.shape = gh_rl_target_shape; return p; }
+static inline H5Group FeatureHDF5_group(const FeatureHDF5 *self)
+{ H5Group g; g.grp = OWN_GRP; return g; }
+static inline void FeatureHDF5_forceUpdatedAt(FeatureHDF5 *self)
+{ gh_rl_updates++; }
+#define RL_PRE (__CPROVER_is_fresh(self, sizeof(*self)) && __CPROVER_is_fresh(name_or_id, sizeof(nstring)) && (gh_rl_found == 0 || gh_rl_found == 1) && (gh_rl_has_old == 0 || gh_rl_has_old == 1) && \
                 gh_rl_target_grp >= 10 && gh_rl_removes == 0 && gh_rl_links == 0 && gh_rl_updates == 0 && nix_exc == EXC_NONE)
 #define RL_POST(accepted) \
 __CPROVER_ensures(/*a-rejected-assignment-removes-nothing-and-links-nothing*/ !(accepted) <==> (nix_exc == EXC_runtime_error && gh_rl_removes == 0 && gh_rl_links == 0 && gh_rl_updates == 0)) \
@@ -47,6 +55,11 @@ NIX_THROWS void MultiTagHDF5_positions_set(MultiTagHDF5 *self, const nstring *na
 __CPROVER_requires(RL_PRE)
 RL_POST(gh_rl_found)
 NIX_CANARY(MultiTagHDF5_positions_set) __CPROVER_assigns(RL_ASSIGNS)
+;
+NIX_THROWS void FeatureHDF5_data_set(FeatureHDF5 *self, const nstring *name_or_id)
+__CPROVER_requires(RL_PRE)
+RL_POST(gh_rl_found)
+NIX_CANARY(FeatureHDF5_data_set) __CPROVER_assigns(RL_ASSIGNS)
 ;
 NIX_THROWS void MultiTagHDF5_extents_set(MultiTagHDF5 *self, const nstring *name_or_id)
 __CPROVER_requires(RL_PRE)
